@@ -77,6 +77,62 @@ pub fn oracle_costs(d: &Dump, sig: &Sig) -> HashMap<(String, u32), u64> {
     cost
 }
 
+/// structural key of a dumped value (containers by contents, unordered ones sorted)
+fn vkey(v: &V) -> String {
+    match v {
+        V::Id(s, _, c) => format!("{s}-{c}"),
+        V::Base(b) => b.clone(),
+        V::Cont(s, _, items) => {
+            let mut parts: Vec<String> = items.iter().map(vkey).collect();
+            if dump::is_unordered(s) {
+                parts.sort();
+            }
+            format!("[{}]", parts.join(" "))
+        }
+    }
+}
+
+/// Evaluate a ground term with container literals (vec-of / set-of / multiset-of / pair / *-empty)
+/// over the dump: returns the structural key and, for e-class results, (sort, canonical id).
+fn eval_with_containers(d: &Dump, t: &S) -> Option<(String, Option<(String, u32)>)> {
+    match t {
+        S::A(a) => Some((a.clone(), None)),
+        S::Str(x) => Some((format!("\"{x}\""), None)),
+        S::L(v) => {
+            let S::A(h) = v.first()? else { return None };
+            let mut kids = vec![];
+            for x in &v[1..] {
+                kids.push(eval_with_containers(d, x)?.0);
+            }
+            match h.as_str() {
+                "vec-of" | "vec-empty" | "pair" => Some((format!("[{}]", kids.join(" ")), None)),
+                "set-of" | "set-empty" => {
+                    kids.sort();
+                    kids.dedup();
+                    Some((format!("[{}]", kids.join(" ")), None))
+                }
+                "multiset-of" => {
+                    kids.sort();
+                    Some((format!("[{}]", kids.join(" ")), None))
+                }
+                _ => {
+                    let t = d.tables.iter().find(|t| &t.name == h)?;
+                    for r in &t.rows {
+                        let n = r.vals.len();
+                        if n - 1 == kids.len() && r.vals[..n - 1].iter().map(vkey).zip(kids.iter()).all(|(a, b)| a == *b) {
+                            return match &r.vals[n - 1] {
+                                V::Id(s, _, c) => Some((format!("{s}-{c}"), Some((s.clone(), *c)))),
+                                o => Some((vkey(o), None)),
+                            };
+                        }
+                    }
+                    None
+                }
+            }
+        }
+    }
+}
+
 fn term_to_s(dag: &TermDag, id: TermId) -> S {
     match dag.get(id) {
         Term::App(n, ch) => {
@@ -188,6 +244,32 @@ pub fn run(a: &Args) -> Report {
         let mut roots: Vec<((String, u32), String)> =
             names.iter().filter(|(k, n)| !n.starts_with('?') && !n.contains('#') && !n.contains('[') && sig.sorts.contains(&k.0)).map(|(k, n)| (k.clone(), n.clone())).collect();
         roots.truncate(25);
+        // classes whose least name holds a container have no parseable name above: take the ground
+        // terms the history itself inserted (container literals included) as further roots
+        let mut extra: Vec<((String, u32), String)> = vec![];
+        for c in &cmds {
+            let ts: Vec<&pgen::T> = match c {
+                pgen::Cmd::Act(pgen::Act::Expr(t @ pgen::T::App(..))) => vec![t],
+                pgen::Cmd::Act(pgen::Act::Union(x, y)) => vec![x, y],
+                _ => vec![],
+            };
+            for t in ts {
+                let text = t.to_string();
+                if text.contains('$') || !text.contains("-of") {
+                    continue;
+                }
+                let Ok(parsed) = read_all(&text) else { continue };
+                let Some(sx) = parsed.first() else { continue };
+                if let Some((_, Some((sort, cid)))) = eval_with_containers(&d, sx) {
+                    if sig.sorts.contains(&sort) && !extra.iter().any(|(k, _)| *k == (sort.clone(), cid)) && !roots.iter().any(|(k, _)| *k == (sort.clone(), cid)) {
+                        extra.push(((sort, cid), text));
+                    }
+                }
+            }
+        }
+        extra.truncate(10);
+        rep.count("roots_holding_containers", extra.len() as u64);
+        roots.extend(extra);
         for (key, rootname) in &roots {
             let mut cl = eg.clone();
             let want = cost.get(key).copied();
